@@ -83,7 +83,7 @@ Lemma pairs_snoc_odd ns y x :
 Proof.
   intros Ho Hl. destruct (split_last_odd ns Ho) as (ns0 & y' & -> & He).
   rewrite last_snoc in Hl. injection Hl as ->.
-  rewrite <- app_assoc. simpl. rewrite !pairs_app_even by exact He. simpl. reflexivity.
+  rewrite <- app_assoc. simpl. rewrite !pairs_app_even by exact He. simpl. rewrite app_nil_r. reflexivity.
 Qed.
 
 Lemma pair_up_even ns : Nat.even (length ns) = true -> pair_up ns = pairs ns.
@@ -94,7 +94,7 @@ Lemma pair_up_odd ns y :
 Proof.
   induction ns as [|a|a b ns IH] using list_ind2; simpl; intros H Hl; try discriminate.
   - injection Hl as ->. reflexivity.
-  - rewrite IH; auto.
+  - rewrite IH; auto. destruct ns; [discriminate|exact Hl].
 Qed.
 
 Lemma pair_up_length_lt ns : (2 <= length ns)%nat -> (1 <= length (pair_up ns) < length ns)%nat.
@@ -158,4 +158,1039 @@ Proof.
   intros H. apply Nat.odd_spec in H as [k ->]. rewrite Nat2Z.inj_add, Nat2Z.inj_mul.
   change (Z.of_nat 2) with 2. change (Z.of_nat 1) with 1.
   rewrite Z.add_comm, Z.mul_comm, Z_mod_plus_full. reflexivity.
+Qed.
+
+(* ---------------------------------------------------------------------------------------- *)
+(* the verifier's loop as a relation: from (index, layer, hash) the path and the duplicated indexes are
+   consumed completely and the loop stops in (index', layer', hash') *)
+Inductive vrun : Z -> Z -> mnode -> list mnode -> list Z -> Z -> Z -> mnode -> Prop :=
+| vr_done idx layer h : vrun idx layer h [] [] idx layer h
+| vr_dup idx layer h path dups idx' layer' h' :
+    idx mod 2 = 0 ->
+    vrun (idx / 2) (layer + 1) (Node h h) path dups idx' layer' h' ->
+    vrun idx layer h path (layer :: dups) idx' layer' h'
+| vr_path idx layer h s path dups idx' layer' h' :
+    match dups with d0 :: _ => layer <> d0 | [] => True end ->
+    (idx mod 2 = 0 \/ s <> h) ->
+    vrun (idx / 2) (layer + 1) (if idx mod 2 =? 0 then Node h s else Node s h) path dups idx' layer' h' ->
+    vrun idx layer h (s :: path) dups idx' layer' h'.
+
+Lemma vrun_layer_mono idx layer h path dups idx' layer' h' :
+  vrun idx layer h path dups idx' layer' h' -> layer <= layer'.
+Proof. induction 1; lia. Qed.
+
+Lemma vrun_snoc_path idx layer h path dups idx' layer' h' s :
+  vrun idx layer h path dups idx' layer' h' ->
+  (idx' mod 2 = 0 \/ s <> h') ->
+  vrun idx layer h (path ++ [s]) dups (idx' / 2) (layer' + 1) (if idx' mod 2 =? 0 then Node h' s else Node s h').
+Proof.
+  induction 1; intros Hs; simpl.
+  - apply vr_path; [exact I | exact Hs | apply vr_done].
+  - apply vr_dup; auto.
+  - apply vr_path; auto.
+Qed.
+
+Lemma vrun_snoc_dup idx layer h path dups idx' layer' h' :
+  vrun idx layer h path dups idx' layer' h' ->
+  idx' mod 2 = 0 ->
+  vrun idx layer h path (dups ++ [layer']) (idx' / 2) (layer' + 1) (Node h' h').
+Proof.
+  induction 1; intros Hs; simpl.
+  - apply vr_dup; [exact Hs | apply vr_done].
+  - apply vr_dup; auto.
+  - apply vr_path; auto.
+    destruct dups as [|d0 dups]; simpl; auto.
+    apply vrun_layer_mono in H1. lia.
+Qed.
+
+(* the executable loop of the model follows the relation *)
+Lemma vrun_loop idx layer h path dups idx' layer' h' :
+  vrun idx layer h path dups idx' layer' h' ->
+  forall fuel, (length path + length dups + 1 <= fuel)%nat ->
+  isvalid_loop fuel idx layer h path dups = Ok (idx', layer', h', []).
+Proof.
+  induction 1; intros fuel Hf.
+  - destruct fuel; [simpl in Hf; lia|]. reflexivity.
+  - destruct fuel; [simpl in Hf; lia|]. simpl. rewrite Z.eqb_refl.
+    rewrite mnode_eqb_refl. rewrite H. simpl. apply IHvrun. simpl in Hf. lia.
+  - destruct fuel; [simpl in Hf; lia|]. simpl in Hf.
+    assert (Hstep : (if mnode_eqb s h && negb (idx mod 2 =? 0) then Err 1
+                     else isvalid_loop fuel (idx / 2) (layer + 1) (if idx mod 2 =? 0 then Node h s else Node s h) path dups)
+                    = Ok (idx', layer', h', [])).
+    { destruct H0 as [He|Hn].
+      - rewrite He. simpl. rewrite andb_false_r. rewrite He in IHvrun. apply IHvrun. lia.
+      - rewrite (mnode_eqb_neq s h Hn). simpl. apply IHvrun. lia. }
+    simpl. destruct dups as [|d0 dups].
+    + exact Hstep.
+    + destruct (layer =? d0) eqn:E; [apply Z.eqb_eq in E; contradiction|]. exact Hstep.
+Qed.
+
+(* ---------------------------------------------------------------------------------------- *)
+(* a proof that has an index: the verifier, run on what the proof holds so far, ends at position pos of
+   the level the tracked root belongs to, with the tracked root as hash *)
+Record wf (p : mproof) (pos : Z) : Prop := WF {
+  wf_index : 0 <= p_index p;
+  wf_run : vrun (p_index p) 1 (Leaf (p_txid p)) (p_path p) (p_dups p) pos (p_depth p) (p_root p);
+  wf_depth : p_depth p = 1 + Z.of_nat (mh (p_root p));
+  wf_dups : Forall (fun d => 1 <= d < p_depth p) (p_dups p);
+}.
+
+Definition same_id (p q : mproof) : Prop := p_index q = p_index p /\ p_txid q = p_txid p.
+
+(* p has climbed as far as the nodes of level list ns (and the levels built from complete pairs above it)
+   allow: it waits at the unpaired last node of some level *)
+Inductive resident : list mnode -> mproof -> Prop :=
+| res_here ns p :
+    Nat.odd (length ns) = true -> last ns = Some (p_root p) -> wf p (Z.of_nat (length ns) - 1) ->
+    resident ns p
+| res_up ns p : resident (pairs ns) p -> resident ns p.
+
+(* p tracks the node that is about to be appended at position c *)
+Definition riding (x : mnode) (c : Z) (p : mproof) : Prop := p_root p = x /\ wf p c.
+
+Lemma resident_nonempty ns p : resident ns p -> ns <> [].
+Proof. induction 1; intros ->; [discriminate | apply IHresident; reflexivity]. Qed.
+
+Lemma resident_height ns p :
+  resident ns p -> forall d, Forall (fun n => mh n = d) ns -> (d <= mh (p_root p))%nat.
+Proof.
+  induction 1; intros d Hd.
+  - apply last_Some in H0 as (l' & ->). apply Forall_app in Hd as [_ Hd]. apply Forall_cons in Hd as [-> _]. lia.
+  - specialize (IHresident (S d) (pairs_height d ns Hd)). lia.
+Qed.
+
+Lemma resident_up_neq ns p d x :
+  resident (pairs ns) p -> Forall (fun n => mh n = d) ns -> mh x = d -> p_root p <> x.
+Proof.
+  intros Hr Hd Hx He. rewrite <- He in Hx.
+  apply resident_height with (d := S d) in Hr; [lia|]. apply pairs_height. exact Hd.
+Qed.
+
+Lemma resident_index ns p : resident ns p -> 0 <= p_index p.
+Proof. induction 1; auto. apply H1. Qed.
+
+(* the layer stack that belongs to a level list *)
+Definition pending (ns : list mnode) : list mnode :=
+  if Nat.odd (length ns) then match last ns with Some y => [y] | None => [] end else [].
+
+Inductive layers_of : list mnode -> list layer -> Prop :=
+| lo_nil : layers_of [] []
+| lo_cons ns ls : ns <> [] -> layers_of (pairs ns) ls -> layers_of ns (Layer (pending ns) (zlen ns) :: ls).
+
+Lemma layers_of_nil_inv ls : layers_of [] ls -> ls = [].
+Proof. inversion 1; [reflexivity | congruence]. Qed.
+
+Lemma pending_odd ns : Nat.odd (length ns) = true -> exists y, last ns = Some y /\ pending ns = [y].
+Proof.
+  intros H. unfold pending. rewrite H. destruct (split_last_odd ns H) as (ns0 & y & -> & _).
+  exists y. rewrite last_snoc. auto.
+Qed.
+
+Lemma pending_even ns : Nat.odd (length ns) = false -> pending ns = [].
+Proof. intros H. unfold pending. rewrite H. reflexivity. Qed.
+
+(* ---------------------------------------------------------------------------------------- *)
+(* MerkleProof.AddHash / AddDuplicate keep wf *)
+Lemma wf_add_hash_left p pos s :
+  wf p pos -> pos mod 2 = 0 ->
+  wf (mp_add_hash p s (Node (p_root p) s)) (pos / 2).
+Proof.
+  intros [Hi Hr Hd Hu] He. split; simpl; auto.
+  - pose proof (vrun_snoc_path _ _ _ _ _ _ _ _ s Hr (or_introl He)) as H. rewrite He in H. exact H.
+  - rewrite Hd. lia.
+  - eapply Forall_impl; [exact Hu|]. simpl. intros; lia.
+Qed.
+
+Lemma wf_add_hash_right p pos s :
+  wf p pos -> pos mod 2 = 1 -> s <> p_root p -> mh s = mh (p_root p) ->
+  wf (mp_add_hash p s (Node s (p_root p))) (pos / 2).
+Proof.
+  intros [Hi Hr Hd Hu] Ho Hn Hh. split; simpl; auto.
+  - pose proof (vrun_snoc_path _ _ _ _ _ _ _ _ s Hr (or_intror Hn)) as H. rewrite Ho in H. exact H.
+  - rewrite Hd, Hh. lia.
+  - eapply Forall_impl; [exact Hu|]. simpl. intros; lia.
+Qed.
+
+Lemma wf_add_dup p pos :
+  wf p pos -> pos mod 2 = 0 ->
+  wf (mp_add_dup p (Node (p_root p) (p_root p))) (pos / 2).
+Proof.
+  intros [Hi Hr Hd Hu] He. split; simpl; auto.
+  - apply vrun_snoc_dup; auto.
+  - rewrite Hd. lia.
+  - apply Forall_app. split.
+    + eapply Forall_impl; [exact Hu|]. simpl. intros; lia.
+    + constructor; [lia | constructor].
+Qed.
+
+(* what is known about a proof before a level list ns grows by the node x (or, in Finalize, is closed
+   with the pending node x), and after *)
+Definition pre (ns : list mnode) (x : option mnode) (p : mproof) : Prop :=
+  p_index p = -1 \/ resident ns p \/ (exists n, x = Some n /\ riding n (zlen ns) p).
+
+Lemma same_id_refl p : same_id p p.
+Proof. split; reflexivity. Qed.
+
+Lemma same_id_trans p q r : same_id p q -> same_id q r -> same_id p r.
+Proof. intros [A B] [C D]. split; congruence. Qed.
+
+Lemma pre_index ns x p : pre ns x p -> p_index p = -1 \/ 0 <= p_index p.
+Proof.
+  intros [H|[H|(n & _ & _ & H)]]; [left; exact H | right; eapply resident_index; exact H | right; apply H].
+Qed.
+
+Lemma last_elem_of {A} (l : list A) y : last l = Some y -> y ∈ l.
+Proof. intros H. apply last_Some in H as (l' & ->). apply elem_of_app. right. left. Qed.
+
+Lemma odd_pos_Z (ns : list mnode) :
+  Nat.odd (length ns) = true ->
+  (zlen ns - 1) mod 2 = 0 /\ (zlen ns - 1) / 2 = zlen (pairs ns) /\ zlen ns mod 2 = 1 /\ zlen ns / 2 = zlen (pairs ns).
+Proof.
+  intros H. unfold zlen. rewrite div2_len_Z. pose proof (nat_odd_mod _ H) as Hm.
+  set (n := Z.of_nat (length ns)) in *. assert (0 <= n) by (subst n; lia).
+  repeat split; try lia.
+  - rewrite Zminus_mod, Hm. reflexivity.
+  - pose proof (Z.div_mod n 2 ltac:(lia)). pose proof (Z.div_mod (n - 1) 2 ltac:(lia)).
+    assert ((n - 1) mod 2 = 0) by (rewrite Zminus_mod, Hm; reflexivity). lia.
+Qed.
+
+Lemma even_pos_Z (ns : list mnode) :
+  Nat.odd (length ns) = false -> zlen ns mod 2 = 0 /\ zlen ns / 2 = zlen (pairs ns).
+Proof.
+  intros H. unfold zlen. rewrite div2_len_Z. split; [|reflexivity].
+  apply nat_even_mod. unfold Nat.odd in H. destruct (Nat.even (length ns)); auto; discriminate.
+Qed.
+
+(* processProofsLayer on the pair (last ns, x) that completes a level of odd length *)
+Lemma ppl_pair ns y x d p :
+  Nat.odd (length ns) = true -> last ns = Some y ->
+  Forall (fun n => mh n = d) (ns ++ [x]) -> NoDup (ns ++ [x]) ->
+  pre ns (Some x) p ->
+  let q := ppl_one y x (Node y x) false p in
+  pre (pairs ns) (Some (Node y x)) q /\ same_id p q /\ (p_index p = -1 -> q = p).
+Proof.
+  intros Ho Hl Hd Hn Hp q. subst q. unfold ppl_one.
+  apply Forall_app in Hd as [Hd Hdx]. apply Forall_cons in Hdx as [Hdx _].
+  assert (Hy : y ∈ ns) by (apply last_elem_of; exact Hl).
+  assert (Hdy : mh y = d) by (eapply Forall_forall in Hd; eauto).
+  assert (Hxy : x <> y).
+  { intros ->. apply NoDup_app in Hn as (_ & Hn & _). apply (Hn y Hy). left. }
+  destruct (odd_pos_Z ns Ho) as (E1 & E2 & E3 & E4).
+  destruct Hp as [Hi|[Hr|(n & [= <-] & Hroot & Hw)]].
+  - rewrite Hi. simpl. repeat split; auto. left. exact Hi.
+  - pose proof (resident_index _ _ Hr) as Hi.
+    destruct (p_index p =? -1) eqn:E; [apply Z.eqb_eq in E; lia|]. simpl.
+    inversion Hr as [ns' p' Ho' Hl' Hw|ns' p' Hup]; subst.
+    + rewrite Hl in Hl'. injection Hl' as Hl'. rewrite <- Hl'. rewrite mnode_eqb_refl.
+      repeat split; simpl; auto; try lia.
+      right. right. exists (Node y x). split; [reflexivity|]. split; [reflexivity|].
+      rewrite <- E2. rewrite Hl'. apply wf_add_hash_left; auto.
+    + rewrite (mnode_eqb_neq (p_root p) y) by (eapply resident_up_neq; eauto).
+      rewrite (mnode_eqb_neq (p_root p) x) by (eapply resident_up_neq; eauto).
+      repeat split; auto; try lia. right. left. exact Hup.
+  - pose proof (wf_index _ _ Hw) as Hi.
+    destruct (p_index p =? -1) eqn:E; [apply Z.eqb_eq in E; lia|]. simpl.
+    rewrite Hroot. rewrite (mnode_eqb_neq x y Hxy). rewrite mnode_eqb_refl.
+    repeat split; simpl; auto; try lia.
+    right. right. exists (Node y x). split; [reflexivity|]. split; [reflexivity|].
+    rewrite <- E4. rewrite <- Hroot. apply wf_add_hash_right; auto; rewrite Hroot; auto; congruence.
+Qed.
+
+(* Finalize: the pending node n closes a level of even length and is hashed with itself *)
+Lemma ppl_dup_pend ns n d p :
+  Nat.odd (length ns) = false ->
+  Forall (fun k => mh k = d) (ns ++ [n]) ->
+  pre ns (Some n) p ->
+  let q := ppl_one n n (Node n n) true p in
+  pre (pairs ns) (Some (Node n n)) q /\ same_id p q /\ (p_index p = -1 -> q = p).
+Proof.
+  intros Ho Hd Hp q. subst q. unfold ppl_one.
+  apply Forall_app in Hd as [Hd Hdx]. apply Forall_cons in Hdx as [Hdx _].
+  destruct (even_pos_Z ns Ho) as (E1 & E2).
+  destruct Hp as [Hi|[Hr|(k & [= <-] & Hroot & Hw)]].
+  - rewrite Hi. simpl. repeat split; auto. left. exact Hi.
+  - pose proof (resident_index _ _ Hr) as Hi.
+    destruct (p_index p =? -1) eqn:E; [apply Z.eqb_eq in E; lia|]. simpl.
+    inversion Hr as [ns' p' Ho' Hl' Hw|ns' p' Hup]; subst; [congruence|].
+    rewrite (mnode_eqb_neq (p_root p) n) by (eapply resident_up_neq; eauto).
+    repeat split; auto; try lia. right. left. exact Hup.
+  - pose proof (wf_index _ _ Hw) as Hi.
+    destruct (p_index p =? -1) eqn:E; [apply Z.eqb_eq in E; lia|]. simpl.
+    rewrite Hroot, mnode_eqb_refl.
+    repeat split; simpl; auto; try lia.
+    right. right. exists (Node n n). split; [reflexivity|]. split; [reflexivity|].
+    rewrite <- E2. rewrite <- Hroot. apply wf_add_dup; auto.
+Qed.
+
+(* Finalize: nothing pending, the unpaired last node of an odd level is hashed with itself *)
+Lemma ppl_dup_last ns y d p :
+  Nat.odd (length ns) = true -> last ns = Some y ->
+  Forall (fun k => mh k = d) ns ->
+  pre ns None p ->
+  let q := ppl_one y y (Node y y) true p in
+  pre (pairs ns) (Some (Node y y)) q /\ same_id p q /\ (p_index p = -1 -> q = p).
+Proof.
+  intros Ho Hl Hd Hp q. subst q. unfold ppl_one.
+  assert (Hy : y ∈ ns) by (apply last_elem_of; exact Hl).
+  assert (Hdy : mh y = d) by (eapply Forall_forall in Hd; eauto).
+  destruct (odd_pos_Z ns Ho) as (E1 & E2 & E3 & E4).
+  destruct Hp as [Hi|[Hr|(k & [=] & _)]].
+  - rewrite Hi. simpl. repeat split; auto. left. exact Hi.
+  - pose proof (resident_index _ _ Hr) as Hi.
+    destruct (p_index p =? -1) eqn:E; [apply Z.eqb_eq in E; lia|]. simpl.
+    inversion Hr as [ns' p' Ho' Hl' Hw|ns' p' Hup]; subst.
+    + rewrite Hl in Hl'. injection Hl' as Hl'. rewrite <- Hl'. rewrite mnode_eqb_refl.
+      repeat split; simpl; auto; try lia.
+      right. right. exists (Node y y). split; [reflexivity|]. split; [reflexivity|].
+      rewrite <- E2. rewrite Hl'. apply wf_add_dup; auto.
+    + rewrite (mnode_eqb_neq (p_root p) y) by (eapply resident_up_neq; eauto).
+      repeat split; auto; try lia. right. left. exact Hup.
+Qed.
+
+(* ---------------------------------------------------------------------------------------- *)
+(* MerkleTree.AddHash, the loop over the layers *)
+Definition post (ns' : list mnode) (p q : mproof) : Prop :=
+  same_id p q /\ (p_index p = -1 -> q = p) /\ (p_index p <> -1 -> resident ns' q).
+
+Lemma post_same ns' p : (p_index p <> -1 -> resident ns' p) -> post ns' p p.
+Proof. intros H. split; [apply same_id_refl|]. split; auto. Qed.
+
+Lemma odd_succ_len {A} (l : list A) : Z.odd (zlen l + 1) = negb (Nat.odd (length l)).
+Proof. change (zlen l + 1) with (Z.succ (zlen l)). rewrite Z.odd_succ, even_len_Z. apply even_odd_len. Qed.
+
+Lemma index_pair_0 (y x : mnode) : index [y; x] (zlen [y; x] - 2) = Ok y.
+Proof. reflexivity. Qed.
+
+Lemma add_loop_spec ns ls :
+  layers_of ns ls ->
+  forall d x ps,
+    Forall (fun n => mh n = d) (ns ++ [x]) -> NoDup (ns ++ [x]) ->
+    exists ls' ps',
+      add_loop ls x ps = Ok (ls', ps') /\ layers_of (ns ++ [x]) ls' /\
+      Forall2 (fun p q => pre ns (Some x) p -> post (ns ++ [x]) p q) ps ps'.
+Proof.
+  induction 1 as [|ns ls Hne Hlo IH]; intros d x ps Hd Hn.
+  - (* no layer yet *)
+    exists [new_layer x], ps. split; [reflexivity|]. split.
+    + apply (lo_cons [x] []); [discriminate | constructor].
+    + apply Forall2_same_length_lookup_2; [reflexivity|].
+      intros i p q Hp Hq. rewrite Hp in Hq. injection Hq as <-.
+      intros Hpre. apply post_same. intros Hi.
+      destruct Hpre as [Hi'|[Hr|(n & [= <-] & Hroot & Hw)]]; [contradiction| |].
+      * apply resident_nonempty in Hr. congruence.
+      * apply res_here; simpl; auto. rewrite Hroot. reflexivity.
+  - simpl. rewrite odd_succ_len.
+    destruct (Nat.odd (length ns)) eqn:Ho; simpl.
+    + (* the level had odd length: x completes a pair, one level up *)
+      destruct (pending_odd ns Ho) as (y & Hl & ->). simpl.
+      assert (Hps : pairs (ns ++ [x]) = pairs ns ++ [Node y x]) by (apply pairs_snoc_odd; auto).
+      destruct (IH (S d) (Node y x) (map (ppl_one y x (Node y x) false) ps)) as (ls2 & ps2 & Ha & Hlo2 & Hf).
+      { rewrite <- Hps. apply pairs_height. exact Hd. }
+      { rewrite <- Hps. apply NoDup_pairs. exact Hn. }
+      rewrite Ha. simpl. exists (Layer [] (zlen ns + 1) :: ls2), ps2. split; [reflexivity|]. split.
+      * replace (Layer [] (zlen ns + 1)) with (Layer (pending (ns ++ [x])) (zlen (ns ++ [x]))).
+        { apply lo_cons; [destruct ns; discriminate|]. rewrite Hps. exact Hlo2. }
+        f_equal; [|unfold zlen; rewrite app_length; simpl; lia].
+        apply pending_even. rewrite app_length. simpl. rewrite Nat.add_1_r, Nat.odd_succ.
+        unfold Nat.odd in Ho. destruct (Nat.even (length ns)); auto; discriminate.
+      * apply Forall2_fmap_l in Hf. eapply Forall2_impl; [exact Hf|].
+        intros p q Hpq Hpre. simpl in Hpq.
+        destruct (ppl_pair ns y x d p Ho Hl Hd Hn Hpre) as (Hpre1 & Hsid & Hun).
+        destruct (Hpq Hpre1) as (Hsid2 & Hun2 & Hres).
+        split; [eapply same_id_trans; eauto|]. split.
+        -- intros Hi. rewrite (Hun2 ltac:(destruct Hsid as [-> _]; exact Hi)). apply Hun. exact Hi.
+        -- intros Hi. apply res_up. rewrite Hps. apply Hres. destruct Hsid as [-> _]. exact Hi.
+    + (* the level had even length: x waits as its unpaired last node *)
+      rewrite (pending_even ns Ho). simpl.
+      exists (Layer [x] (zlen ns + 1) :: ls), ps. split; [reflexivity|].
+      assert (Hev : Nat.even (length ns) = true) by (unfold Nat.odd in Ho; destruct (Nat.even (length ns)); auto; discriminate).
+      assert (Hps : pairs (ns ++ [x]) = pairs ns) by (apply pairs_snoc_even; auto).
+      assert (Hod : Nat.odd (length (ns ++ [x])) = true).
+      { rewrite app_length. simpl. rewrite Nat.add_1_r, Nat.odd_succ. exact Hev. }
+      split.
+      * replace (Layer [x] (zlen ns + 1)) with (Layer (pending (ns ++ [x])) (zlen (ns ++ [x]))).
+        { apply lo_cons; [destruct ns; discriminate|]. rewrite Hps. exact Hlo. }
+        f_equal; [|unfold zlen; rewrite app_length; simpl; lia].
+        unfold pending. rewrite Hod, last_snoc. reflexivity.
+      * apply Forall2_same_length_lookup_2; [reflexivity|].
+        intros i p q Hp Hq. rewrite Hp in Hq. injection Hq as <-.
+        intros Hpre. apply post_same. intros Hi.
+        destruct Hpre as [Hi'|[Hr|(n & [= <-] & Hroot & Hw)]]; [contradiction| |].
+        -- inversion Hr as [ns' p' Ho' Hl' Hw|ns' p' Hup]; subst; [congruence|].
+           apply res_up. rewrite Hps. exact Hup.
+        -- apply res_here; auto.
+           ++ rewrite last_snoc, Hroot. reflexivity.
+           ++ rewrite app_length. simpl. replace (Z.of_nat (length ns + 1) - 1) with (zlen ns) by (unfold zlen; lia). exact Hw.
+Qed.
+
+(* ---------------------------------------------------------------------------------------- *)
+(* the textbook root: fuel does not matter once it covers the length *)
+Lemma ref_root_f_fuel f1 : forall f2 ns,
+  (1 <= length ns <= f1)%nat -> (length ns <= f2)%nat -> ref_root_f f1 ns = ref_root_f f2 ns.
+Proof.
+  induction f1 as [|f1 IH]; intros f2 ns H1 H2; [lia|].
+  destruct f2 as [|f2]; [lia|].
+  destruct ns as [|a [|b ns]]; simpl in *; try lia; auto.
+  pose proof (pair_up_length_lt (a :: b :: ns) ltac:(simpl; lia)) as Hl. simpl in Hl.
+  apply IH; simpl; lia.
+Qed.
+
+Lemma ref_root_single a : ref_root [a] = Some a.
+Proof. reflexivity. Qed.
+
+Lemma ref_root_step ns : (2 <= length ns)%nat -> ref_root ns = ref_root (pair_up ns).
+Proof.
+  intros H. unfold ref_root. pose proof (pair_up_length_lt ns H) as Hl.
+  destruct ns as [|a [|b ns]]; simpl in H; try lia.
+  change (ref_root_f (length (a :: b :: ns)) (a :: b :: ns))
+    with (ref_root_f (S (length ns)) (pair_up (a :: b :: ns))).
+  apply ref_root_f_fuel; simpl in *; lia.
+Qed.
+
+Lemma ref_root_height fuel : forall ns d r,
+  Forall (fun n => mh n = d) ns -> ref_root_f fuel ns = Some r -> (mh r + 1 <= d + length ns)%nat.
+Proof.
+  induction fuel as [|f IH]; intros ns d r Hd Hr; [discriminate|].
+  destruct ns as [|a [|b ns]]; simpl in Hr; try discriminate.
+  - injection Hr as <-. apply Forall_cons in Hd as [-> _]. simpl. lia.
+  - pose proof (pair_up_length_lt (a :: b :: ns) ltac:(simpl; lia)) as Hl.
+    apply (IH _ (S d)) in Hr.
+    + simpl in *. lia.
+    + change (Node a b :: pair_up ns) with (pair_up (a :: b :: ns)).
+      clear -Hd. revert Hd. generalize (a :: b :: ns). intros l.
+      induction l as [|x|x y l IHl] using list_ind2; simpl; intros H; constructor.
+      * simpl. apply Forall_cons in H as [-> _]. reflexivity.
+      * constructor.
+      * simpl. apply Forall_cons in H as [-> _]. reflexivity.
+      * apply IHl. apply Forall_cons in H as [_ H]. apply Forall_cons in H as [_ H]. exact H.
+Qed.
+
+(* ---------------------------------------------------------------------------------------- *)
+(* FinalizeMerkleProofs, the loop *)
+Definition fin_post (root : mnode) (p q : mproof) : Prop :=
+  same_id p q /\ (p_index p = -1 -> q = p) /\ (p_index p <> -1 -> p_root q = root /\ exists pos, wf q pos).
+
+Lemma fin_post_same root p :
+  (p_index p <> -1 -> p_root p = root /\ exists pos, wf p pos) -> fin_post root p p.
+Proof. intros H. split; [apply same_id_refl|]. split; auto. Qed.
+
+Lemma fin_post_trans root p q r :
+  same_id p q -> (p_index p = -1 -> q = p) -> fin_post root q r -> fin_post root p r.
+Proof.
+  intros Hs Hu (Hs2 & Hu2 & Hr). split; [eapply same_id_trans; eauto|]. split.
+  - intros Hi. rewrite (Hu2 ltac:(destruct Hs as [-> _]; exact Hi)). apply Hu. exact Hi.
+  - intros Hi. apply Hr. destruct Hs as [-> _]. exact Hi.
+Qed.
+
+Lemma odd_false_even n : Nat.odd n = false -> Nat.even n = true.
+Proof. unfold Nat.odd. destruct (Nat.even n); auto; discriminate. Qed.
+
+Lemma last_hash_pending ns y :
+  Nat.odd (length ns) = true -> last ns = Some y -> last_hash (Layer (pending ns) (zlen ns)) = Ok y.
+Proof. intros Ho Hl. unfold pending. rewrite Ho, Hl. reflexivity. Qed.
+
+Lemma fin_loop_spec ns ls :
+  layers_of ns ls ->
+  forall d pend ps,
+    ns ++ option_list pend <> [] ->
+    Forall (fun n => mh n = d) (ns ++ option_list pend) -> NoDup (ns ++ option_list pend) ->
+    exists root ps',
+      fin_loop ls pend ps = Ok (Some root, ps') /\ ref_root (ns ++ option_list pend) = Some root /\
+      Forall2 (fun p q => pre ns pend p -> fin_post root p q) ps ps'.
+Proof.
+  induction 1 as [|ns ls Hne Hlo IH]; intros d pend ps Hfull Hd Hn.
+  - (* above the top layer *)
+    destruct pend as [n|]; [|simpl in Hfull; congruence].
+    exists n, ps. split; [reflexivity|]. split; [reflexivity|].
+    apply Forall2_same_length_lookup_2; [reflexivity|].
+    intros i p q Hp Hq. rewrite Hp in Hq. injection Hq as <-.
+    intros Hpre. apply fin_post_same. intros Hi.
+    destruct Hpre as [Hi'|[Hr|(k & [= <-] & Hroot & Hw)]]; [contradiction| |].
+    + apply resident_nonempty in Hr. congruence.
+    + split; [exact Hroot | eexists; exact Hw].
+  - simpl fin_loop. destruct pend as [n|].
+    + (* a node is pending from below *)
+      rewrite even_len_Z. simpl option_list in *.
+      destruct (Nat.odd (length ns)) eqn:Ho.
+      * (* odd level: its unpaired last node is hashed with the pending node *)
+        rewrite even_odd_len, Ho. simpl negb. cbv iota.
+        destruct (pending_odd ns Ho) as (y & Hl & Hpe).
+        rewrite (last_hash_pending ns y Ho Hl). simpl.
+        assert (Hps : pairs (ns ++ [n]) = pairs ns ++ [Node y n]) by (apply pairs_snoc_odd; auto).
+        assert (Hev : Nat.even (length (ns ++ [n])) = true).
+        { rewrite app_length. simpl. rewrite Nat.add_1_r, Nat.even_succ. exact Ho. }
+        destruct (IH (S d) (Some (Node y n)) (map (ppl_one y n (Node y n) false) ps)) as (root & ps2 & Ha & Hroot & Hf).
+        { simpl. destruct (pairs ns); discriminate. }
+        { simpl. rewrite <- Hps. apply pairs_height. exact Hd. }
+        { simpl. rewrite <- Hps. apply NoDup_pairs. exact Hn. }
+        exists root, ps2. split; [exact Ha|]. split.
+        -- rewrite ref_root_step by (rewrite app_length; simpl; destruct ns; [congruence | simpl; lia]).
+           rewrite pair_up_even by exact Hev. rewrite Hps. exact Hroot.
+        -- apply Forall2_fmap_l in Hf. eapply Forall2_impl; [exact Hf|].
+           intros p q Hpq Hpre. simpl in Hpq.
+           destruct (ppl_pair ns y n d p Ho Hl Hd Hn Hpre) as (Hpre1 & Hsid & Hun).
+           eapply fin_post_trans; eauto.
+      * (* even level: the pending node is hashed with itself *)
+        rewrite even_odd_len, Ho. simpl negb. cbv iota. simpl.
+        assert (Hod : Nat.odd (length (ns ++ [n])) = true).
+        { rewrite app_length. simpl. rewrite Nat.add_1_r, Nat.odd_succ. apply odd_false_even. exact Ho. }
+        assert (Hps : pair_up (ns ++ [n]) = pairs ns ++ [Node n n]).
+        { rewrite (pair_up_odd _ n Hod) by apply last_snoc. rewrite pairs_snoc_even by (apply odd_false_even; exact Ho). reflexivity. }
+        destruct (IH (S d) (Some (Node n n)) (map (ppl_one n n (Node n n) true) ps)) as (root & ps2 & Ha & Hroot & Hf).
+        { simpl. destruct (pairs ns); discriminate. }
+        { simpl. apply Forall_app. split.
+          - apply pairs_height. apply Forall_app in Hd as [Hd _]. exact Hd.
+          - constructor; [|constructor]. simpl. apply Forall_app in Hd as [_ Hd]. apply Forall_cons in Hd as [-> _]. reflexivity. }
+        { simpl. apply NoDup_app in Hn as (Hn & _ & _).
+          apply NoDup_app. split; [apply NoDup_pairs; exact Hn|]. split; [|apply NoDup_singleton].
+          intros z Hz Hz2. apply elem_of_list_singleton in Hz2. subst z.
+          apply elem_of_pairs in Hz as (l1 & l2 & He & _). rewrite He in Hn.
+          apply NoDup_app in Hn as (_ & _ & Hn). apply NoDup_cons in Hn as [Hn _]. apply Hn. left. }
+        exists root, ps2. split; [exact Ha|]. split.
+        -- rewrite ref_root_step by (rewrite app_length; simpl; destruct ns; [congruence | simpl; lia]).
+           rewrite Hps. exact Hroot.
+        -- apply Forall2_fmap_l in Hf. eapply Forall2_impl; [exact Hf|].
+           intros p q Hpq Hpre. simpl in Hpq.
+           destruct (ppl_dup_pend ns n d p Ho Hd Hpre) as (Hpre1 & Hsid & Hun).
+           eapply fin_post_trans; eauto.
+    + (* nothing pending from below *)
+      simpl option_list in *. rewrite app_nil_r in *.
+      rewrite odd_len_Z. destruct (Nat.odd (length ns)) eqn:Ho.
+      * destruct (pending_odd ns Ho) as (y & Hl & Hpe).
+        rewrite (last_hash_pending ns y Ho Hl).
+        destruct ((zlen ns =? 1) && match ls with [] => true | _ :: _ => false end) eqn:Etop.
+        -- (* the top layer: its single node is the root *)
+           apply andb_true_iff in Etop as [E1 _]. apply Z.eqb_eq in E1.
+           destruct ns as [|a [|b ns]]; unfold zlen in E1; simpl in E1; try lia. simpl in Hl. injection Hl as <-.
+           exists a, ps. split; [reflexivity|]. split; [reflexivity|].
+           apply Forall2_same_length_lookup_2; [reflexivity|].
+           intros i p q Hp Hq. rewrite Hp in Hq. injection Hq as <-.
+           intros Hpre. apply fin_post_same. intros Hi.
+           destruct Hpre as [Hi'|[Hr|(k & [=] & _)]]; [contradiction|].
+           inversion Hr as [ns' p' Ho' Hl' Hw|ns' p' Hup]; subst.
+           ++ simpl in Hl'. injection Hl' as <-. split; [reflexivity | eexists; exact Hw].
+           ++ apply resident_nonempty in Hup. simpl in Hup. congruence.
+        -- (* an odd level below the top: its last node is hashed with itself *)
+           simpl.
+           assert (Hlen : (3 <= length ns)%nat).
+           { destruct ns as [|a [|b [|c ns]]]; simpl in *; try discriminate; try lia.
+             apply layers_of_nil_inv in Hlo. subst ls. discriminate. }
+           assert (Hps : pair_up ns = pairs ns ++ [Node y y]) by (apply pair_up_odd; auto).
+           destruct (IH (S d) (Some (Node y y)) (map (ppl_one y y (Node y y) true) ps)) as (root & ps2 & Ha & Hroot & Hf).
+           { simpl. destruct (pairs ns); discriminate. }
+           { simpl. apply Forall_app. split; [apply pairs_height; exact Hd|].
+             constructor; [|constructor]. simpl. f_equal. eapply Forall_forall in Hd; [exact Hd|]. apply last_elem_of. exact Hl. }
+           { simpl. apply NoDup_app. split; [apply NoDup_pairs; exact Hn|]. split; [|apply NoDup_singleton].
+             intros z Hz Hz2. apply elem_of_list_singleton in Hz2. subst z.
+             apply elem_of_pairs in Hz as (l1 & l2 & He & _). rewrite He in Hn.
+             apply NoDup_app in Hn as (_ & _ & Hn). apply NoDup_cons in Hn as [Hn _]. apply Hn. left. }
+           exists root, ps2. split; [exact Ha|]. split.
+           ++ rewrite ref_root_step by lia. rewrite Hps. exact Hroot.
+           ++ apply Forall2_fmap_l in Hf. eapply Forall2_impl; [exact Hf|].
+              intros p q Hpq Hpre. simpl in Hpq.
+              destruct (ppl_dup_last ns y d p Ho Hl Hd Hpre) as (Hpre1 & Hsid & Hun).
+              eapply fin_post_trans; eauto.
+      * (* even level, nothing pending: nothing to do here *)
+        assert (Hlen : (2 <= length ns)%nat).
+        { destruct ns as [|a [|b ns]]; simpl in *; try discriminate; try lia. congruence. }
+        destruct (IH (S d) None ps) as (root & ps2 & Ha & Hroot & Hf).
+        { simpl. rewrite app_nil_r. apply pairs_nonempty. exact Hlen. }
+        { simpl. rewrite app_nil_r. apply pairs_height. exact Hd. }
+        { simpl. rewrite app_nil_r. apply NoDup_pairs. exact Hn. }
+        simpl in Hroot. rewrite app_nil_r in Hroot.
+        exists root, ps2. split; [exact Ha|]. split.
+        -- rewrite ref_root_step by lia. rewrite pair_up_even by (apply odd_false_even; exact Ho). exact Hroot.
+        -- eapply Forall2_impl; [exact Hf|]. intros p q Hpq Hpre. apply Hpq.
+           destruct Hpre as [Hi|[Hr|(k & [=] & _)]]; [left; exact Hi|].
+           right. left. inversion Hr as [ns' p' Ho' Hl' Hw|ns' p' Hup]; subst; [congruence | exact Hup].
+Qed.
+
+(* ---------------------------------------------------------------------------------------- *)
+(* the tree while ProcessBlock feeds it: ids = txids added so far, regs = those registered (in order) *)
+Definition proof_at (ids : list Z) (r : Z) (p : mproof) : Prop :=
+  p_txid p = r /\ 0 <= p_index p /\ ids !! Z.to_nat (p_index p) = Some r.
+
+Definition tree_inv (ids regs : list Z) (t : mtree) : Prop :=
+  t_count t = zlen ids /\ layers_of (map Leaf ids) (t_layers t) /\
+  Forall2 (fun r p => proof_at ids r p /\ resident (map Leaf ids) p) regs (t_proofs t).
+
+Lemma tree_inv_init : tree_inv [] [] new_tree.
+Proof. split; [reflexivity|]. split; constructor. Qed.
+
+Lemma set_index_skip ps h c : Forall (fun p => p_index p <> -1) ps -> set_index ps h c = ps.
+Proof.
+  induction 1 as [|p ps Hp _ IH]; simpl; [reflexivity|].
+  destruct (p_index p =? -1) eqn:E; [apply Z.eqb_eq in E; contradiction|]. simpl. rewrite IH. reflexivity.
+Qed.
+
+Lemma set_index_new ps x c :
+  Forall (fun p => p_index p <> -1) ps ->
+  set_index (ps ++ [new_proof x]) (Leaf x) c = ps ++ [MP c x [] [] (Leaf x) 1].
+Proof.
+  induction 1 as [|p ps Hp _ IH]; simpl.
+  - rewrite Z.eqb_refl. reflexivity.
+  - destruct (p_index p =? -1) eqn:E; [apply Z.eqb_eq in E; contradiction|]. simpl. rewrite IH. reflexivity.
+Qed.
+
+Lemma add_hash_unfold t h :
+  (t_layers t = [] -> t_count t = 0) ->
+  add_hash t h = res_bind (add_loop (t_layers t) h (set_index (t_proofs t) h (t_count t)))
+                          (fun r => Ok (MT (fst r) (t_count t + 1) (snd r))).
+Proof.
+  intros H. unfold add_hash. destruct (t_layers t) as [|L ls] eqn:E; [|reflexivity].
+  simpl. rewrite (H eq_refl). reflexivity.
+Qed.
+
+Lemma NoDup_leaves ids : NoDup ids -> NoDup (map Leaf ids).
+Proof. intros H. apply NoDup_fmap_2; [|exact H]. intros a b [= ->]. reflexivity. Qed.
+
+Lemma leaves_height ids : Forall (fun n => mh n = O) (map Leaf ids).
+Proof. apply Forall_fmap. apply Forall_forall. intros; reflexivity. Qed.
+
+Lemma zlen_map {A B} (f : A -> B) l : zlen (map f l) = zlen l.
+Proof. unfold zlen. rewrite map_length. reflexivity. Qed.
+
+Lemma zlen_app {A} (l1 l2 : list A) : zlen (l1 ++ l2) = zlen l1 + zlen l2.
+Proof. unfold zlen. rewrite app_length. lia. Qed.
+
+Lemma proof_at_app ids x r p : proof_at ids r p -> proof_at (ids ++ [x]) r p.
+Proof. intros (A & B & C). split; [exact A|]. split; [exact B|]. apply lookup_app_l_Some. exact C. Qed.
+
+Lemma tree_step ids regs t x (reg : bool) :
+  tree_inv ids regs t -> NoDup (ids ++ [x]) ->
+  exists t2,
+    add_hash (if reg then add_merkle_proof t x else t) (Leaf x) = Ok t2 /\
+    tree_inv (ids ++ [x]) (regs ++ (if reg then [x] else [])) t2.
+Proof.
+  intros (Hc & Hlo & Hps) Hn.
+  assert (Hidx : Forall (fun p => p_index p <> -1) (t_proofs t)).
+  { apply Forall_forall. intros p Hp. apply elem_of_list_lookup in Hp as (i & Hp).
+    destruct (Forall2_lookup_r _ _ _ _ _ Hps Hp) as (r & _ & (_ & Hi & _) & _). lia. }
+  assert (Hl0 : t_layers t = [] -> t_count t = 0).
+  { intros E. rewrite E in Hlo. inversion Hlo as [Hm|]. rewrite Hc. destruct ids; [reflexivity | discriminate]. }
+  set (t1 := if reg then add_merkle_proof t x else t).
+  assert (Hl1 : t_layers t1 = t_layers t /\ t_count t1 = t_count t) by (subst t1; destruct reg; auto).
+  destruct Hl1 as [El Ec].
+  rewrite add_hash_unfold by (rewrite El, Ec; exact Hl0). rewrite El, Ec.
+  set (ps1 := set_index (t_proofs t1) (Leaf x) (t_count t)).
+  assert (Hps1 : ps1 = t_proofs t ++ (if reg then [MP (zlen ids) x [] [] (Leaf x) 1] else [])).
+  { subst ps1 t1. destruct reg; simpl.
+    - rewrite set_index_new by exact Hidx. rewrite Hc. reflexivity.
+    - rewrite set_index_skip by exact Hidx. rewrite app_nil_r. reflexivity. }
+  destruct (add_loop_spec _ _ Hlo O (Leaf x) ps1) as (ls' & ps' & Ha & Hlo' & Hf).
+  { change [Leaf x] with (map Leaf [x]). rewrite <- map_app. apply leaves_height. }
+  { change [Leaf x] with (map Leaf [x]). rewrite <- map_app. apply NoDup_leaves. exact Hn. }
+  rewrite Ha. simpl. eexists. split; [reflexivity|].
+  change [Leaf x] with (map Leaf [x]) in *. rewrite <- map_app in *.
+  split; [simpl; rewrite Hc, zlen_app; reflexivity|]. split; [exact Hlo'|]. simpl.
+  rewrite Hps1 in Hf. apply Forall2_app_inv_l in Hf as (qs1 & qs2 & Hf1 & Hf2 & ->).
+  apply Forall2_app.
+  - (* the proofs registered earlier *)
+    apply Forall2_same_length_lookup_2.
+    { rewrite (Forall2_length _ _ _ Hps). apply (Forall2_length _ _ _ Hf1). }
+    intros i r q Hr Hq.
+    destruct (Forall2_lookup_l _ _ _ _ _ Hps Hr) as (p & Hp & Hat & Hres).
+    destruct (Forall2_lookup_l _ _ _ _ _ Hf1 Hp) as (q' & Hq' & Hpost).
+    rewrite Hq in Hq'. injection Hq' as <-.
+    destruct Hpost as ((Hi & Ht) & _ & Hr2).
+    { right. left. exact Hres. }
+    destruct Hat as (A & B & C). split.
+    + split; [congruence|]. split; [lia|]. rewrite Hi. apply lookup_app_l_Some. exact C.
+    + apply Hr2. lia.
+  - (* the proof registered for x itself *)
+    destruct reg; [|apply Forall2_nil_inv_l in Hf2; subst; constructor].
+    apply Forall2_cons_inv_l in Hf2 as (q & qs & Hpost & Hnil & ->).
+    apply Forall2_nil_inv_l in Hnil. subst qs. constructor; [|constructor].
+    destruct Hpost as ((Hi & Ht) & _ & Hr2).
+    { right. right. exists (Leaf x). split; [reflexivity|]. split; [reflexivity|].
+      rewrite zlen_map. split; simpl; try (unfold zlen; lia); [constructor | constructor]. }
+    simpl in *. split.
+    + split; [exact Ht|]. split; [unfold zlen in *; lia|]. rewrite Hi. unfold zlen. rewrite Nat2Z.id.
+      apply list_lookup_middle. reflexivity.
+    + apply Hr2. unfold zlen in *. lia.
+Qed.
+
+(* ---------------------------------------------------------------------------------------- *)
+(* the registration discipline in isolation: any choice of registered transactions (flag per tx),
+   AddMerkleProof immediately before the transaction's own AddHash, AddHash for every transaction
+   (reg_step, reg_loop, registered are defined in model/Merkle.v) *)
+
+Lemma registered_snoc body tx :
+  registered (body ++ [tx]) = registered body ++ (if snd tx then [fst tx] else []).
+Proof.
+  unfold registered. rewrite filter_app, map_app. f_equal.
+  destruct tx as [t [|]]; reflexivity.
+Qed.
+
+Lemma reg_loop_inv body :
+  NoDup (map fst body) ->
+  exists t, reg_loop body = Ok t /\ tree_inv (map fst body) (registered body) t.
+Proof.
+  induction body as [|tx body IH] using rev_ind; intros Hn.
+  - exists new_tree. split; [reflexivity | apply tree_inv_init].
+  - rewrite map_app in Hn. simpl in Hn.
+    destruct IH as (t & Ht & Hinv). { apply NoDup_app in Hn as [Hn _]. exact Hn. }
+    destruct (tree_step _ _ _ (fst tx) (snd tx) Hinv Hn) as (t2 & Ha & Hinv2).
+    exists t2. split.
+    + unfold reg_loop in *. rewrite fold_left_app, Ht. simpl. exact Ha.
+    + rewrite map_app, registered_snoc. exact Hinv2.
+Qed.
+
+(* FinalizeMerkleProofs on such a tree *)
+Lemma finalize_spec ids regs t :
+  tree_inv ids regs t -> ids <> [] -> NoDup ids ->
+  exists root ps,
+    finalize t = Ok (Some root, ps) /\ ref_root (map Leaf ids) = Some root /\
+    Forall2 (fun r q => proof_at ids r q /\ p_root q = root /\ exists pos, wf q pos) regs ps.
+Proof.
+  intros (Hc & Hlo & Hps) Hne Hn. unfold finalize. rewrite Hc.
+  destruct (zlen ids =? 0) eqn:E0; [apply Z.eqb_eq in E0; destruct ids; [congruence | unfold zlen in E0; simpl in E0; lia]|].
+  destruct (zlen ids =? 1) eqn:E1.
+  - apply Z.eqb_eq in E1. destruct ids as [|a [|b ids]]; unfold zlen in E1; simpl in E1; try lia.
+    simpl in Hlo. inversion Hlo as [|ns ls Hne' Hlo' E]; subst. simpl.
+    exists (Leaf a), (t_proofs t). split; [reflexivity|]. split; [reflexivity|].
+    eapply Forall2_impl; [exact Hps|]. intros r q [Hat Hr]. split; [exact Hat|].
+    inversion Hr as [ns' p' Ho' Hl' Hw|ns' p' Hup]; subst.
+    + simpl in Hl'. injection Hl' as <-. split; [reflexivity | eexists; exact Hw].
+    + apply resident_nonempty in Hup. simpl in Hup. congruence.
+  - destruct (fin_loop_spec _ _ Hlo O None (t_proofs t)) as (root & ps & Hf & Hroot & Hall).
+    { simpl. rewrite app_nil_r. destruct ids; [congruence | discriminate]. }
+    { simpl. rewrite app_nil_r. apply leaves_height. }
+    { simpl. rewrite app_nil_r. apply NoDup_leaves. exact Hn. }
+    simpl in Hroot. rewrite app_nil_r in Hroot.
+    exists root, ps. split; [exact Hf|]. split; [exact Hroot|].
+    apply Forall2_same_length_lookup_2.
+    { rewrite (Forall2_length _ _ _ Hps). apply (Forall2_length _ _ _ Hall). }
+    intros i r q Hr Hq.
+    destruct (Forall2_lookup_l _ _ _ _ _ Hps Hr) as (p & Hp & Hat & Hres).
+    destruct (Forall2_lookup_l _ _ _ _ _ Hall Hp) as (q' & Hq' & Hpost).
+    rewrite Hq in Hq'. injection Hq' as <-.
+    destruct Hpost as ((Hi & Ht) & _ & Hr2). { right. left. exact Hres. }
+    destruct Hat as (A & B & C).
+    split; [split; [congruence | split; [lia | rewrite Hi; exact C]]|]. apply Hr2. lia.
+Qed.
+
+(* the client-side verifier accepts a finalized proof (values fit Go's integers when the block has fewer
+   than 2^63 transactions, so the uint64 conversions of convertMerkleProof change nothing) *)
+Lemma to_u64_small x : 0 <= x < 2 ^ 64 -> to_u64 x = x.
+Proof. intros H. unfold to_u64. apply Z.mod_small. exact H. Qed.
+
+Lemma wf_valid q pos root hid :
+  wf q pos -> p_root q = root -> p_index q < 2 ^ 63 -> p_depth q <= 2 ^ 63 ->
+  is_valid (convert_merkle_proof q (hid, root)) (p_txid q) = 0.
+Proof.
+  intros [Hi Hr Hd Hu] Hroot Hib Hdb. unfold is_valid, convert_merkle_proof. simpl.
+  rewrite to_u64_small by lia.
+  assert (Hm : map to_u64 (p_dups q) = p_dups q).
+  { clear -Hu Hdb. induction Hu as [|d ds Hd _ IH]; simpl; [reflexivity|]. rewrite IH, to_u64_small by lia. reflexivity. }
+  rewrite Hm. rewrite (vrun_loop _ _ _ _ _ _ _ _ Hr) by lia.
+  rewrite Hroot, mnode_eqb_refl. reflexivity.
+Qed.
+
+(* ---------------------------------------------------------------------------------------- *)
+(* THE STREAMING TREE IS CORRECT - for every block size, every subset and position of registered txs *)
+Theorem streaming_correct body :
+  NoDup (map fst body) -> body <> [] -> zlen body < 2 ^ 63 ->
+  exists t root proofs,
+    reg_loop body = Ok t /\ finalize t = Ok (Some root, proofs) /\
+    ref_root (map Leaf (map fst body)) = Some root /\
+    map p_txid proofs = registered body /\
+    Forall (fun q => 0 <= p_index q /\ map fst body !! Z.to_nat (p_index q) = Some (p_txid q) /\
+                     forall hid, is_valid (convert_merkle_proof q (hid, root)) (p_txid q) = 0) proofs.
+Proof.
+  intros Hn Hne Hlen.
+  destruct (reg_loop_inv body Hn) as (t & Ht & Hinv).
+  destruct (finalize_spec _ _ _ Hinv) as (root & ps & Hf & Hroot & Hall); auto.
+  { destruct body; [congruence | discriminate]. }
+  exists t, root, ps. repeat split; auto.
+  - clear -Hall. induction Hall as [|r q rs qs (Hat & _) _ IH]; simpl; [reflexivity|].
+    destruct Hat as [-> _]. f_equal. exact IH.
+  - apply Forall_forall. intros q Hq. apply elem_of_list_lookup in Hq as (i & Hq).
+    destruct (Forall2_lookup_r _ _ _ _ _ Hall Hq) as (r & _ & (Ht' & Hi & Hlk) & Hr & pos & Hw).
+    subst r. split; [exact Hi|]. split; [exact Hlk|]. intros hid.
+    assert (Hb : Z.of_nat (length body) < 2 ^ 63) by exact Hlen.
+    apply lookup_lt_Some in Hlk. rewrite map_length in Hlk.
+    eapply wf_valid; eauto; try lia.
+    rewrite (wf_depth _ _ Hw), Hr.
+    unfold ref_root in Hroot. apply (ref_root_height _ _ O) in Hroot; [|apply leaves_height].
+    rewrite !map_length in Hroot. lia.
+Qed.
+
+(* the three named statements *)
+Theorem root_agrees body t :
+  NoDup (map fst body) -> body <> [] -> reg_loop body = Ok t ->
+  exists root proofs, finalize t = Ok (Some root, proofs) /\ ref_root (map Leaf (map fst body)) = Some root.
+Proof.
+  intros Hn Hne Ht. destruct (reg_loop_inv body Hn) as (t' & Ht' & Hinv).
+  rewrite Ht in Ht'. injection Ht' as <-.
+  destruct (finalize_spec _ _ _ Hinv) as (root & ps & Hf & Hroot & _); eauto.
+  destruct body; [congruence | discriminate].
+Qed.
+
+Theorem alignment body t root proofs :
+  NoDup (map fst body) -> body <> [] -> reg_loop body = Ok t -> finalize t = Ok (root, proofs) ->
+  map p_txid proofs = registered body.
+Proof.
+  intros Hn Hne Ht Hf. destruct (reg_loop_inv body Hn) as (t' & Ht' & Hinv).
+  rewrite Ht in Ht'. injection Ht' as <-.
+  destruct (finalize_spec _ _ _ Hinv) as (root' & ps & Hf' & _ & Hall); auto.
+  { destruct body; [congruence | discriminate]. }
+  rewrite Hf in Hf'. injection Hf' as -> ->.
+  clear -Hall. induction Hall as [|r q rs qs (Hat & _) _ IH]; simpl; [reflexivity|].
+  destruct Hat as [-> _]. f_equal. exact IH.
+Qed.
+
+Theorem proof_verifies body t root proofs i q :
+  NoDup (map fst body) -> zlen body < 2 ^ 63 ->
+  reg_loop body = Ok t -> finalize t = Ok (Some root, proofs) -> proofs !! i = Some q ->
+  registered body !! i = Some (p_txid q) /\
+  0 <= p_index q /\ map fst body !! Z.to_nat (p_index q) = Some (p_txid q) /\
+  forall hid, is_valid (convert_merkle_proof q (hid, root)) (p_txid q) = 0.
+Proof.
+  intros Hn Hlen Ht Hf Hq.
+  assert (Hne : body <> []).
+  { intros ->. unfold reg_loop in Ht. simpl in Ht. injection Ht as <-. discriminate. }
+  destruct (streaming_correct body Hn Hne Hlen) as (t' & root' & ps & Ht' & Hf' & _ & Hal & Hall).
+  rewrite Ht in Ht'. injection Ht' as <-. rewrite Hf in Hf'. injection Hf' as <- <-.
+  split.
+  - rewrite <- Hal, list_lookup_fmap, Hq. reflexivity.
+  - eapply Forall_forall in Hall; [exact Hall|]. eapply elem_of_list_lookup_2. exact Hq.
+Qed.
+
+(* ---------------------------------------------------------------------------------------- *)
+(* the textbook root is injective on lists of pairwise distinct txids: a body that differs from the
+   committed list (transaction added, dropped, reordered, altered) has another root *)
+Lemma pair_up_height d ns : Forall (fun n => mh n = d) ns -> Forall (fun n => mh n = S d) (pair_up ns).
+Proof.
+  induction ns as [|x|x y l IHl] using list_ind2; simpl; intros H; constructor.
+  - simpl. apply Forall_cons in H as [-> _]. reflexivity.
+  - constructor.
+  - simpl. apply Forall_cons in H as [-> _]. reflexivity.
+  - apply IHl. apply Forall_cons in H as [_ H]. apply Forall_cons in H as [_ H]. exact H.
+Qed.
+
+Lemma elem_of_pair_up a b ns : Node a b ∈ pair_up ns -> a ∈ ns /\ b ∈ ns.
+Proof.
+  induction ns as [|x|x y l IHl] using list_ind2; simpl; intros H.
+  - inversion H.
+  - apply elem_of_list_singleton in H. injection H as -> ->. split; left.
+  - apply elem_of_cons in H as [[= -> ->]|H].
+    + split; [left | right; left].
+    + destruct (IHl H). split; right; right; auto.
+Qed.
+
+Lemma NoDup_pair_up ns : NoDup ns -> NoDup (pair_up ns).
+Proof.
+  induction ns as [|x|x y l IHl] using list_ind2; simpl; intros H.
+  - constructor.
+  - apply NoDup_singleton.
+  - apply NoDup_cons in H as [Hx H]. apply NoDup_cons in H as [Hy H]. constructor; [|apply IHl; exact H].
+    intros Hin. apply elem_of_pair_up in Hin as [Hin _]. apply Hx. right. exact Hin.
+Qed.
+
+Lemma pair_up_inj xs : forall ys, NoDup xs -> NoDup ys -> pair_up xs = pair_up ys -> xs = ys.
+Proof.
+  induction xs as [|x|x y l IHl] using list_ind2; intros ys Hx Hy E.
+  - destruct ys as [|a [|b ys]]; simpl in E; [reflexivity | discriminate | discriminate].
+  - destruct ys as [|a [|b ys]]; simpl in E; try discriminate.
+    + injection E as -> _. reflexivity.
+    + destruct ys as [|c [|e ys]]; simpl in E; try discriminate.
+      injection E as -> ->. apply NoDup_cons in Hy as [Hy _]. exfalso. apply Hy. left.
+  - destruct ys as [|a [|b ys]]; simpl in E; try discriminate.
+    + destruct l as [|c [|e l]]; simpl in E; try discriminate.
+      injection E as -> ->. apply NoDup_cons in Hx as [Hx _]. exfalso. apply Hx. left.
+    + injection E as -> -> E. f_equal. f_equal. apply IHl; auto.
+      * apply NoDup_cons in Hx as [_ Hx]. apply NoDup_cons in Hx as [_ Hx]. exact Hx.
+      * apply NoDup_cons in Hy as [_ Hy]. apply NoDup_cons in Hy as [_ Hy]. exact Hy.
+Qed.
+
+Lemma ref_root_height_ge fuel : forall ns d r,
+  Forall (fun n => mh n = d) ns -> ref_root_f fuel ns = Some r -> (d <= mh r)%nat.
+Proof.
+  induction fuel as [|f IH]; intros ns d r Hd Hr; [discriminate|].
+  destruct ns as [|a [|b ns]]; simpl in Hr; try discriminate.
+  - injection Hr as <-. apply Forall_cons in Hd as [-> _]. lia.
+  - apply (IH _ (S d)) in Hr; [lia|]. apply (pair_up_height d (a :: b :: ns)). exact Hd.
+Qed.
+
+Lemma ref_root_f_inj f1 : forall f2 xs ys d r,
+  Forall (fun n => mh n = d) xs -> Forall (fun n => mh n = d) ys -> NoDup xs -> NoDup ys ->
+  ref_root_f f1 xs = Some r -> ref_root_f f2 ys = Some r -> xs = ys.
+Proof.
+  induction f1 as [|f1 IH]; intros f2 xs ys d r Hdx Hdy Hnx Hny Hx Hy; [discriminate|].
+  destruct f2 as [|f2]; [discriminate|].
+  destruct xs as [|a [|b xs]]; simpl in Hx; try discriminate;
+    destruct ys as [|a' [|b' ys]]; simpl in Hy; try discriminate.
+  - congruence.
+  - injection Hx as <-. apply (ref_root_height_ge _ _ (S d)) in Hy.
+    + apply Forall_cons in Hdx as [Hda _]. lia.
+    + apply (pair_up_height d (a' :: b' :: ys)). exact Hdy.
+  - injection Hy as <-. apply (ref_root_height_ge _ _ (S d)) in Hx.
+    + apply Forall_cons in Hdy as [Hda _]. lia.
+    + apply (pair_up_height d (a :: b :: xs)). exact Hdx.
+  - apply pair_up_inj; auto.
+    apply (IH f2 _ _ (S d) r); auto.
+    + apply (pair_up_height d (a :: b :: xs)). exact Hdx.
+    + apply (pair_up_height d (a' :: b' :: ys)). exact Hdy.
+    + apply (NoDup_pair_up (a :: b :: xs)). exact Hnx.
+    + apply (NoDup_pair_up (a' :: b' :: ys)). exact Hny.
+Qed.
+
+Theorem ref_root_inj a b r :
+  NoDup a -> NoDup b -> ref_root (map Leaf a) = Some r -> ref_root (map Leaf b) = Some r -> a = b.
+Proof.
+  intros Ha Hb Hra Hrb.
+  assert (E : map Leaf a = map Leaf b).
+  { eapply ref_root_f_inj; try exact Hra; try exact Hrb; try apply leaves_height; apply NoDup_leaves; auto. }
+  clear -E. revert b E. induction a as [|x a IH]; intros [|y b] E; simpl in E; try discriminate; auto.
+  injection E as -> E. f_equal. apply IH. exact E.
+Qed.
+
+(* ---------------------------------------------------------------------------------------- *)
+(* ProcessBlock *)
+
+(* a body whose textbook root is not the header's root: chain and notification stream untouched *)
+Theorem bad_block_rejected s hid prev hroot body :
+  ref_root (map Leaf (map fst body)) <> Some hroot ->
+  process_block s hid prev hroot body false = (s, ERR, []).
+Proof.
+  intros H. unfold process_block.
+  destruct (existsb _ _ || _); [reflexivity|].
+  destruct (negb (prev =? n_tip s)); [reflexivity|].
+  unfold is_merkle_root_valid. simpl.
+  destruct (ref_root (map Leaf (map fst body))) as [r|]; [|reflexivity].
+  rewrite mnode_eqb_neq by congruence. reflexivity.
+Qed.
+
+(* every corruption of the body under an unchanged header, txids pairwise distinct *)
+Theorem corrupted_body_rejected s hid prev hroot committed body :
+  NoDup committed -> NoDup (map fst body) ->
+  ref_root (map Leaf committed) = Some hroot ->
+  map fst body <> committed ->
+  process_block s hid prev hroot body false = (s, ERR, []).
+Proof.
+  intros Hc Hb Hr Hne. apply bad_block_rejected. intros Hr2. apply Hne.
+  eapply ref_root_inj; eauto.
+Qed.
+
+(* the registration loop of ProcessBlock keeps the tree invariant: the proofs registered are exactly,
+   and in the same order, the transactions appended to txs - whatever mix of already delivered / new /
+   irrelevant / mempool-known transactions the block holds *)
+Lemma block_tx_step insync tree unconf mempool txs tx :
+  exists (reg isnew : bool) unconf1 mempool1,
+    block_tx insync (Ok (tree, unconf, mempool, txs)) tx =
+    res_bind (add_hash (if reg then add_merkle_proof tree (fst tx) else tree) (Leaf (fst tx)))
+             (fun t2 => Ok (t2, unconf1, mempool1, if reg then txs ++ [(fst tx, isnew)] else txs)).
+Proof.
+  unfold block_tx. simpl.
+  destruct (remove_hash (fst tx) unconf) as [in_unconf unconf1].
+  destruct (if insync then remove_hash (fst tx) mempool else (false, mempool)) as [in_mempool mempool1].
+  destruct in_unconf.
+  - exists true, false, unconf1, mempool1. reflexivity.
+  - destruct (negb in_mempool && snd tx).
+    + exists true, true, unconf1, mempool1. reflexivity.
+    + exists false, false, unconf1, mempool1. reflexivity.
+Qed.
+
+Lemma block_fold_inv insync body :
+  NoDup (map fst body) ->
+  forall unconf0 mempool0,
+  exists tree unconf mempool txs,
+    fold_left (block_tx insync) body (Ok (new_tree, unconf0, mempool0, [])) = Ok (tree, unconf, mempool, txs) /\
+    tree_inv (map fst body) (map fst txs) tree /\ (map fst txs `sublist_of` map fst body).
+Proof.
+  induction body as [|tx body IH] using rev_ind; intros Hn unconf0 mempool0.
+  - exists new_tree, unconf0, mempool0, []. split; [reflexivity|]. split; [apply tree_inv_init | reflexivity].
+  - rewrite map_app in Hn. simpl in Hn.
+    destruct (IH ltac:(apply NoDup_app in Hn as [Hn _]; exact Hn) unconf0 mempool0)
+      as (tree & unconf & mempool & txs & Hf & Hinv & Hsub).
+    rewrite fold_left_app, Hf. cbn [fold_left].
+    destruct (block_tx_step insync tree unconf mempool txs tx) as (reg & isnew & unconf1 & mempool1 & ->).
+    destruct (tree_step _ _ _ (fst tx) reg Hinv Hn) as (t2 & Ha & Hinv2). rewrite Ha. simpl.
+    rewrite map_app. simpl.
+    exists t2, unconf1, mempool1, (if reg then txs ++ [(fst tx, isnew)] else txs).
+    split; [reflexivity|]. destruct reg.
+    + rewrite map_app. split; [exact Hinv2|]. apply sublist_app; [exact Hsub | reflexivity].
+    + rewrite app_nil_r in Hinv2. split; [exact Hinv2|]. apply sublist_inserts_r. exact Hsub.
+Qed.
+
+Lemma final_valid ids r q root pos hid :
+  proof_at ids r q -> p_root q = root -> wf q pos ->
+  ref_root (map Leaf ids) = Some root -> zlen ids < 2 ^ 63 ->
+  is_valid (convert_merkle_proof q (hid, root)) r = 0 /\ c_index (convert_merkle_proof q (hid, root)) = p_index q.
+Proof.
+  intros (Ht & Hi & Hlk) Hr Hw Hroot Hlen. subst r.
+  apply lookup_lt_Some in Hlk. unfold zlen in Hlen.
+  split.
+  - eapply wf_valid; eauto; try lia.
+    rewrite (wf_depth _ _ Hw), Hr.
+    unfold ref_root in Hroot. apply (ref_root_height _ _ O) in Hroot; [|apply leaves_height].
+    rewrite !map_length in Hroot. lia.
+  - simpl. apply to_u64_small. lia.
+Qed.
+
+
+Lemma index_middle {A} (l1 l2 : list A) x : index (l1 ++ x :: l2) (zlen l1) = Ok x.
+Proof.
+  unfold index, zlen. destruct (Z.of_nat (length l1) <? 0) eqn:E; [apply Z.ltb_lt in E; lia|].
+  rewrite Nat2Z.id, list_lookup_middle by reflexivity. reflexivity.
+Qed.
+
+Lemma block_events_spec hid hroot ids txs ps :
+  ref_root (map Leaf ids) = Some hroot -> zlen ids < 2 ^ 63 ->
+  Forall2 (fun (tx : Z * bool) q => proof_at ids (fst tx) q /\ p_root q = hroot /\ exists pos, wf q pos) txs ps ->
+  forall done, exists evs,
+    block_events (hid, hroot) (done ++ ps) (zlen done) txs = Ok evs /\ Forall2 (conf_ok hid hroot ids) txs evs.
+Proof.
+  intros Hroot Hlen. induction 1 as [|tx q txs ps (Hat & Hr & pos & Hw) _ IH]; intros done.
+  - exists []. split; [reflexivity | constructor].
+  - destruct tx as [txid isnew]. simpl. rewrite index_middle. simpl.
+    destruct (IH (done ++ [q])) as (evs & He & Hall).
+    rewrite <- app_assoc, zlen_app in He. simpl in He. change (zlen [q]) with 1 in He. rewrite He. simpl.
+    eexists. split; [reflexivity|]. constructor; [|exact Hall].
+    destruct (final_valid ids txid q hroot pos hid Hat Hr Hw Hroot Hlen) as [Hv Hci].
+    exists (convert_merkle_proof q (hid, hroot)). simpl fst. simpl snd. rewrite Hv.
+    split; [reflexivity|]. split; [reflexivity|]. rewrite Hci.
+    destruct Hat as (_ & Hi & Hlk). auto.
+Qed.
+
+(* A block that passes the three gates of ProcessBlock (not held yet, extends the tip, the block type's
+   IsMerkleRootValid - the textbook root - agrees with the header), txids pairwise distinct:
+   - the streaming root equals the header's root, so the second comparison (which would come after the
+     header was added and announced) never fails,
+   - the header is added, announced, and every transaction selected by the loop gets, in block order,
+     one notification of the right kind carrying the header, depth zero, the transaction's true index and
+     a proof the client verifier accepts. *)
+Theorem accepted_block s hid prev hroot body :
+  NoDup (map fst body) -> zlen body < 2 ^ 63 ->
+  existsb (fun h => fst h =? hid) (n_chain s) || (hid =? 0) = false ->
+  prev = n_tip s ->
+  is_merkle_root_valid hroot (map fst body) = true ->
+  exists unconf mempool txs evs,
+    process_block s hid prev hroot body false =
+      (NS ((hid, hroot) :: n_chain s) unconf mempool (n_insync s), OK, EHeaders (n_height s + 1) hid :: evs) /\
+    Forall2 (conf_ok hid hroot (map fst body)) txs evs /\
+    (map fst txs `sublist_of` map fst body).
+Proof.
+  intros Hn Hlen Hfresh Hprev Hgate. unfold process_block.
+  rewrite Hfresh, Hprev, Z.eqb_refl, Hgate. simpl.
+  unfold is_merkle_root_valid in Hgate.
+  destruct (ref_root (map Leaf (map fst body))) as [r|] eqn:Hroot; [|discriminate].
+  apply mnode_eqb_eq in Hgate. subst r.
+  destruct (block_fold_inv (n_insync s) body Hn (n_unconf s) (n_mempool s))
+    as (tree & unconf & mempool & txs & Hf & Hinv & Hsub).
+  rewrite Hf.
+  assert (Hne : map fst body <> []).
+  { intros E. rewrite E in Hroot. discriminate. }
+  destruct (finalize_spec _ _ _ Hinv Hne Hn) as (root & ps & Hfin & Hroot2 & Hall).
+  rewrite Hroot in Hroot2. injection Hroot2 as <-.
+  rewrite Hfin, mnode_eqb_refl. simpl.
+  assert (Hall' : Forall2 (fun (tx : Z * bool) q => proof_at (map fst body) (fst tx) q /\ p_root q = hroot /\ exists pos, wf q pos) txs ps).
+  { apply Forall2_fmap_l in Hall. exact Hall. }
+  destruct (block_events_spec hid hroot (map fst body) txs ps Hroot ltac:(rewrite zlen_map; exact Hlen) Hall' [])
+    as (evs & He & Hev).
+  change (zlen (@nil mproof)) with 0 in He. change ([] ++ ps) with ps in He. rewrite He.
+  exists unconf, mempool, txs, evs. split.
+  - unfold n_height, zlen. simpl length. rewrite Nat2Z.inj_succ. unfold Z.succ. reflexivity.
+  - split; [exact Hev | exact Hsub].
 Qed.
